@@ -656,6 +656,7 @@ void run_world(const Case &c)
         if (found != should || dt != (should ? 1 : 0))
         {
           g_shm->findings++;
+          g_shm->bad++;
           emit({{"r", Fam::world == 0 ? "mismatch" : "stdspec"}, {"m", c.m}, {"id", c.id}, {"inst", c.inst},
                 {"step", static_cast<long>(sts.size())}, {"op", "teardown"}, {"path", "/teardown"},
                 {"exp", should ? 1 : 0}, {"obs", dt},
@@ -670,6 +671,7 @@ void run_world(const Case &c)
         if (r.dtors != 1)
         {
           g_shm->findings++;
+          g_shm->bad++;
           emit({{"r", Fam::world == 0 ? "mismatch" : "stdspec"}, {"m", c.m}, {"id", c.id}, {"inst", c.inst},
                 {"step", static_cast<long>(sts.size())}, {"op", "teardown"}, {"path", "/teardown"}, {"exp", 1},
                 {"obs", r.dtors},
